@@ -3,6 +3,7 @@
 package server
 
 import (
+	"fmt"
 	"strings"
 
 	"github.com/XiaoMi/Gaea/parser"
@@ -17,7 +18,26 @@ func VerifC06Executor(ns *Namespace) *SessionExecutor {
 	se := newSessionExecutor(nil)
 	se.namespace = ns.name
 	se.contextNamespace = ns
+	se.session = &Session{proxy: &Server{ServerVersionCompareStatus: util.NewVersionCompareStatus("5.6.20-gaea")}}
 	return se
+}
+
+// VerifC06GetPlan is doQuery up to and including plan construction (the real getPlan:
+// token pre-check, else parser + BuildPlan on the namespace's router). A panic is what
+// handleQuery would recover into an error.
+func VerifC06GetPlan(se *SessionExecutor, db, sql string) (p plan.Plan, err error) {
+	defer func() {
+		if e := recover(); e != nil {
+			p, err = nil, fmt.Errorf("panic: %v", e)
+		}
+	}()
+	reqCtx := util.NewRequestContext()
+	sql = strings.TrimRight(sql, ";")
+	reqCtx.SetStmtType(parser.Preview(sql))
+	if canHandleWithoutPlan(reqCtx.GetStmtType()) {
+		return nil, nil
+	}
+	return se.getPlan(reqCtx, se.GetNamespace(), db, sql, true)
 }
 
 // VerifC06PreBuild runs the statement text through the steps that precede the token
